@@ -550,3 +550,90 @@ Proof.
   apply Exists_exists in H as (i & Hi & Hz). rewrite (Hf i Hi) in Hz. discriminate.
 Qed.
 End AggGuard.
+
+(* ================================================================ stored order: ascending lexicographic, strictly *)
+From Coq Require Import Sorting.Sorted Relations.
+Definition idx_lt (i j : idx) : Prop := idx_ltb i j = true.
+
+Lemma idx_ltb_irrefl i : idx_ltb i i = false.
+Proof. induction i as [|x i IH]; cbn [idx_ltb]; auto. rewrite Nat.ltb_irrefl, Nat.eqb_refl, IH. reflexivity. Qed.
+
+Lemma idx_ltb_trans i j k : idx_ltb i j = true -> idx_ltb j k = true -> idx_ltb i k = true.
+Proof.
+  revert j k; induction i as [|x i IH]; intros [|y j] [|z k]; cbn [idx_ltb]; auto; try discriminate.
+  intros H1 H2. apply orb_true_iff in H1, H2. apply orb_true_iff.
+  destruct H1 as [H1|H1], H2 as [H2|H2].
+  - left. apply Nat.ltb_lt in H1, H2. apply Nat.ltb_lt. lia.
+  - apply andb_true_iff in H2 as [E _]. apply Nat.eqb_eq in E. subst. now left.
+  - apply andb_true_iff in H1 as [E _]. apply Nat.eqb_eq in E. subst. now left.
+  - apply andb_true_iff in H1 as [E1 R1]. apply andb_true_iff in H2 as [E2 R2].
+    apply Nat.eqb_eq in E1, E2. subst. right. rewrite Nat.eqb_refl. cbn [andb]. eapply IH; eauto.
+Qed.
+
+Lemma idx_ltb_total i j : idx_ltb i j = false -> i <> j -> idx_ltb j i = true.
+Proof.
+  revert j; induction i as [|x i IH]; intros [|y j]; cbn [idx_ltb]; auto; try discriminate; try congruence.
+  intros H Hne. apply orb_false_iff in H as [H1 H2]. apply Nat.ltb_ge in H1.
+  destruct (Nat.eqb_spec x y) as [->|Hxy].
+  - cbn [andb] in H2. rewrite Nat.ltb_irrefl, Nat.eqb_refl. cbn [orb andb]. apply IH; auto. congruence.
+  - apply orb_true_iff. left. apply Nat.ltb_lt. lia.
+Qed.
+
+Lemma ins_idx_hd j i r : HdRel idx_lt j r -> idx_lt j i -> HdRel idx_lt j (ins_idx i r).
+Proof.
+  intros H Hji. destruct r as [|k r]; cbn; [now constructor|].
+  destruct (idx_ltb k i); constructor; auto. now inversion H.
+Qed.
+
+Lemma ins_idx_sorted i l : ~ In i l -> Sorted idx_lt l -> Sorted idx_lt (ins_idx i l).
+Proof.
+  induction l as [|j r IH]; intros Hi Hs; cbn; [repeat constructor|].
+  inversion Hs as [|? ? Hr Hh]; subst.
+  destruct (idx_ltb j i) eqn:E.
+  - constructor; [apply IH; auto; intros H; apply Hi; cbn; auto|]. now apply ins_idx_hd.
+  - constructor; auto. constructor. apply idx_ltb_total; auto. intros ->. apply Hi. cbn; auto.
+Qed.
+
+Lemma sort_idx_sorted l : NoDup l -> Sorted idx_lt (sort_idx l).
+Proof.
+  induction 1 as [|i l Hi Hn IH]; cbn; [constructor|].
+  apply ins_idx_sorted; auto. intros H. apply Hi. eapply Permutation_in; [apply sort_idx_perm|exact H].
+Qed.
+
+Theorem unique_rows_sorted l : StronglySorted idx_lt (unique_rows l).
+Proof.
+  apply Sorted_StronglySorted; [intros i j k; apply idx_ltb_trans|].
+  apply sort_idx_sorted, dedup_NoDup.
+Qed.
+
+Lemma StronglySorted_filter {A} (R : A -> A -> Prop) (p : A -> bool) l :
+  StronglySorted R l -> StronglySorted R (filter p l).
+Proof.
+  induction 1 as [|a l Hs IH Ha]; cbn; [constructor|].
+  destruct (p a); auto. constructor; auto.
+  rewrite Forall_forall in *. intros x Hx. apply filter_In in Hx as [Hx _]. auto.
+Qed.
+
+Lemma StronglySorted_firstn {A} (R : A -> A -> Prop) n l :
+  StronglySorted R l -> StronglySorted R (firstn n l).
+Proof.
+  intros H. revert n. induction H as [|a l Hs IH Ha]; intros [|n]; cbn; try constructor; auto.
+  rewrite Forall_forall in *. intros x Hx. apply In_firstn in Hx. auto.
+Qed.
+
+(* the stored subscripts of from_aggregator's result ascend strictly in lexicographic order *)
+Theorem agg_sorted {V} (isz : V -> bool) s subs (vals : list V) f :
+  StronglySorted idx_lt (ssubs (from_aggregator isz s subs vals f)).
+Proof. cbn [from_aggregator ssubs]. apply StronglySorted_filter, unique_rows_sorted. Qed.
+
+Lemma redraw_sorted fuel nz s cur ds : StronglySorted idx_lt cur ->
+  StronglySorted idx_lt (fst (redraw fuel nz s cur ds)).
+Proof.
+  revert cur ds. induction fuel as [|f IH]; intros cur ds Hc; cbn [redraw]; auto.
+  destruct (length cur <? nz); auto. destruct ds as [|d ds]; auto.
+  cbn [fst]. apply IH. apply unique_rows_sorted.
+Qed.
+
+(* ... and so do those of the random sparse generator, whatever the draws *)
+Theorem sprand_sorted nz s draws : StronglySorted idx_lt (sprand_subs nz s draws).
+Proof. unfold sprand_subs. apply StronglySorted_firstn, redraw_sorted. constructor. Qed.
